@@ -23,6 +23,8 @@ ASSUMPTIONS = [
     "precision cannot be made without creating an illegal segment: it is exempted from 'one unit per split'",
     "announced splits = int(magnitude * 2.5 * units of the reference) per annotator (the tool's documented factor)",
     "total durations compared with 1e-9 relative tolerance",
+    "references are fully labelled or (15 %) fully unlabelled; for unlabelled references the category perturbations are "
+    "skipped (nothing to shuffle); mixed references are not generated (labels must be sortable)",
 ]
 
 
@@ -68,7 +70,7 @@ def check_valid_corpus(ctx, corpus, names, ref_units, allowed, what, include_ref
                 return got
             if lab not in allowed:
                 ctx.fail("corpus-has-a-category-outside-the-reference", {"what": what, "label": repr(lab),
-                                                                         "allowed": sorted(allowed)}, monitor="M-CORPUS")
+                                                                         "allowed": sorted(map(str, allowed))}, monitor="M-CORPUS")
                 return got
     if not set(corpus.categories) <= set(allowed):
         ctx.fail("corpus-categories-outside-the-reference", {"what": what, "extra": sorted(set(corpus.categories) - set(allowed))},
@@ -94,6 +96,8 @@ def check_case(ctx, case):
         ctx.fail_exc(f"constructor-raises:{type(e).__name__}", e, monitor="M-CORPUS")
         return
     allowed = set(cases.spec_labels(cspec)) | set(extra or [])
+    if any(u[2] is None for u in cspec["ann"][ref_name]):
+        allowed.add(None)
     names = expected_names(case["annotators"])
     np.random.seed(case["np_seed"])
     n_ref = len(ref_units)
@@ -165,10 +169,15 @@ def check_case(ctx, case):
                 if len(us) != len(b):
                     ctx.fail("shift-changed-the-number-of-units", det, monitor="M-CONFINED")
                     break
-                if sorted(l for _, _, l in us) != sorted(l for _, _, l in b):
+                if sorted(str(l) for _, _, l in us) != sorted(str(l) for _, _, l in b):
                     ctx.fail("shift-changed-labels", det, monitor="M-CONFINED")
                     break
 
+    if None in allowed:
+        # an unlabelled reference has no category to shuffle (the library's category shuffle needs sortable labels):
+        # the category perturbations and the flag combinations that include them are outside the statement
+        perturbations = [p_ for p_ in perturbations if not p_[0].startswith("category")]
+        ctx.observe("reference_labels", "unlabelled")
     for pname, fn in perturbations:
         check_perturbation(pname, fn, fresh(), m, "")
     # each perturbation applied to a corpus that another perturbation has already changed
@@ -184,6 +193,8 @@ def check_case(ctx, case):
     # all 32 flag combinations through corpus_shuffle
     for flags in itertools.product([False, True], repeat=5):
         shift, fpos, fneg, split, cat = flags
+        if cat and None in allowed:
+            continue
         include = case.get("include_ref", False) and (sum(flags) % 2 == 0)
         try:
             corpus = cst.corpus_shuffle(case["annotators"] if not isinstance(case["annotators"], list) else list(case["annotators"]),
@@ -209,7 +220,7 @@ def check_case(ctx, case):
         if m2 == 0:
             try:
                 corpus = cst.corpus_shuffle(case["annotators"] if not isinstance(case["annotators"], list) else list(case["annotators"]),
-                                            shift=True, false_pos=True, false_neg=True, split=True, cat_shuffle=True)
+                                            shift=True, false_pos=True, false_neg=True, split=True, cat_shuffle=None not in allowed)
                 got = units_by_annotator(corpus)
                 ctx.count("M-MAGNITUDE-0")
                 if any(got.get(a) != ref_units for a in names):
@@ -246,9 +257,13 @@ def gen_case(ctx):
         if us:
             cspec["ann"][name] = us
             break
-    m = rng.choice([0.0, 1.0, rng.random(), rng.random(), rng.random()])
+    unlabelled = rng.random() < 0.15
+    if unlabelled:          # a reference whose units carry no label at all
+        cspec["ann"][name] = [[u[0], u[1], None] for u in cspec["ann"][name]]
+        cspec["ann"][name] = [list(x) for x in sorted({tuple(u) for u in cspec["ann"][name]}, key=cases.unit_key)]
+    m = rng.choice([0.0, 1.0, 1.0, rng.random(), rng.random(), rng.random()])
     annotators = rng.choice([1, 2, 3, 5, ["x", "y"], ["b", "a", "c"], ["Martino", "Martingale"]])
-    extra = rng.choice([None, None, ["extra1"], ["zz", "a"]])
+    extra = rng.choice([None, None, ["extra1"], ["zz", "a"]]) if not unlabelled else None
     return {"reference": cspec, "magnitude": m, "annotators": annotators, "extra_categories": extra,
             "include_ref": rng.random() < 0.5, "np_seed": rng.randrange(2 ** 31),
             "then_magnitude": rng.choice([None, 0.0, 0.0, rng.random()])}
